@@ -1,0 +1,16 @@
+//go:build verif
+
+package scramblesuit
+
+import "net"
+
+// VerifBuffered reports how many undecoded and decoded-but-unread bytes a
+// ScrambleSuit connection currently holds.  Verification hook (build tag
+// verif); not part of the package API.
+func VerifBuffered(conn net.Conn) (undecoded, decoded int, ok bool) {
+	c, ok := conn.(*ssConn)
+	if !ok {
+		return 0, 0, false
+	}
+	return c.receiveBuffer.Len(), c.receiveDecodedBuffer.Len(), true
+}
